@@ -6,6 +6,7 @@ import (
 	"sort"
 	"strings"
 	"sync"
+	"sync/atomic"
 	"time"
 
 	"github.com/pion/rtcp"
@@ -69,6 +70,8 @@ type world struct {
 	conns    map[int]*connInfo
 	sessions []*sessInfo
 	clock    int64
+	fake     atomic.Int64 // the server's clock: jumps by 10 s per operation, so that a datagram that is
+	// wrongly accepted shows in udpLastPacketTime
 }
 
 func playDesc() *description.Session {
@@ -196,6 +199,8 @@ func newWorld(c *corr.Ctx, sc *Scenario, udp bool) *world {
 		},
 		DisableRTCPSenderReports: true,
 	}
+	w.fake.Store(1_700_000_000)
+	gortsplib.VerifPeerServerSetClock(w.srv, func() time.Time { return time.Unix(w.fake.Load(), 0) }, time.Hour)
 	if udp {
 		w.srv.UDPRTPAddress = vHost + ":8000"
 		w.srv.UDPRTCPAddress = vHost + ":8001"
@@ -396,6 +401,7 @@ func runSess(c *corr.Ctx, sc *Scenario) {
 
 	for i, op := range sc.Ops {
 		w.clock++
+		w.fake.Add(10)
 		switch op.K {
 		case "xconn":
 			ip := unhexIP(op.IP)
